@@ -12,6 +12,8 @@ import (
 	"os"
 	"sort"
 	"sync"
+	"sync/atomic"
+	"time"
 
 	"github.com/advancedclimatesystems/gonnx"
 	"gorgonia.org/tensor"
@@ -587,8 +589,10 @@ func recordConc(rec *recorder, rng *rand.Rand, trials int, repo string) int {
 		}
 		if concMode == "hot" {
 			// Runs that START at the same instant: four goroutines released together by closing a channel, round after round
-			for round := 1; round <= 10*trials; round++ {
-				start := make(chan struct{})
+			// (a spin barrier: the goroutines leave it within nanoseconds of each other; bounded by a time budget per model)
+			deadline := time.Now().Add(time.Duration(200*trials) * time.Millisecond)
+			for round := 1; round <= 400*trials && time.Now().Before(deadline); round++ {
+				var ready atomic.Int32
 				var bw sync.WaitGroup
 				for gi := 1; gi <= 4; gi++ {
 					bw.Add(1)
@@ -596,7 +600,9 @@ func recordConc(rec *recorder, rng *rand.Rand, trials int, repo string) int {
 						defer bw.Done()
 						k := (round + gi) % nKeys
 						feed := sm.stack(pool[k])
-						<-start
+						ready.Add(1)
+						for ready.Load() < 4 {
+						}
 						var out gonnx.Tensors
 						o := guard(func() Observation {
 							var err error
@@ -613,7 +619,6 @@ func recordConc(rec *recorder, rng *rand.Rand, trials int, repo string) int {
 						emit(map[string]interface{}{"ev": "RunEnd", "model": name, "g": gi + 900, "seq": round, "key": k + 1, "digest": digestOf(out, sm.outNames)})
 					}(gi)
 				}
-				close(start)
 				bw.Wait()
 			}
 		}
